@@ -228,7 +228,19 @@ def judge_set(ctx, shape, which, vals, value_kind, seed):
     for d, n in zip(dims, shape):
         st = {"time": 0.1, "frequency": 125.0, "channel": 1.0}[d]
         coords[d] = 0.5 * (d == "time") + np.arange(n) * st
-    arr = xr.DataArray(r.normal(size=shape), dims=dims, coords=coords)
+    layout = ["plain", "coords_reversed", "transposed", "bare_channel"][seed % 4]
+    if layout == "coords_reversed":
+        arr = xr.DataArray(r.normal(size=shape), dims=dims, coords={d: coords[d] for d in reversed(dims)})
+    elif layout == "bare_channel" and "channel" in dims:
+        arr = xr.DataArray(r.normal(size=shape), dims=dims, coords={d: coords[d] for d in dims if d != "channel"})
+        which = [d for d in which if d != "channel"] or [dims[0]]
+        vals = vals[: len(which)] or [0.5]
+    else:
+        arr = xr.DataArray(r.normal(size=shape), dims=dims, coords=coords)
+    if layout == "transposed" and len(dims) > 1:
+        arr = arr.transpose(*reversed(dims))
+        shape = tuple(reversed(shape))
+        dims = list(reversed(dims))
     query = {}
     for d, u in zip(which, vals):
         c = coords[d]
